@@ -113,10 +113,15 @@ Definition sub_result_eqb (a b : sub_result) : bool :=
   end.
 
 (** observed view (all leaves the client holds, meta included) against a
-    predicted one *)
-Definition view_agrees (predicted : view) (o : obs) : bool :=
+    predicted one.  When the target streams values the client cannot decode
+    ([lax]), whether the client meets such a value depends on how much the
+    subscriber queue coalesces: the prediction is made for the schedule with
+    the most coalescing, under which the client fails only if every schedule
+    makes it fail; a failure where none was predicted is then accepted. *)
+Definition view_agrees (lax : bool) (predicted : view) (o : obs) : bool :=
   match predicted, o with
   | VLeaves l, OView (VLeaves l') => leaves_eqb l (drop_meta l')
+  | VLeaves _, OView (VClientError _) => lax
   | VClientError _, OView (VClientError _) => true
   | VSubFailed r, OView (VSubFailed r') => sub_result_eqb r r'
   | VCollectorDown, OView VCollectorDown => true
@@ -183,11 +188,23 @@ Definition sub_request_eqb (a b : sub_request) : bool :=
 
 (** ** the model side *)
 
-Definition canonical_sched (p1 : list (string * nat)) : list action :=
-  flat_map (fun nk => repeat (AIngest (fst nk)) (snd nk)) p1 ++ [ASubscribe].
+(** the schedule the harness enforces: the first messages of every target, the
+    subscription, the whole snapshot delivered (the harness waits for the
+    client's sync), then everything else.  For streams within the hypotheses of
+    [relay_faithful] the schedule does not matter. *)
+Definition count_updates (ss : streams) : nat :=
+  fold_left (fun k ns =>
+               fold_left (fun k it => match it with
+                                      | IUpd n => (k + List.length (n_updates n))%nat
+                                      | ISync => k
+                                      end) (snd ns) k) ss 0%nat.
+
+Definition canonical_sched (ss : streams) (p1 : list (string * nat)) : list action :=
+  flat_map (fun nk => repeat (AIngest (fst nk)) (snd nk)) p1
+  ++ [ASubscribe] ++ repeat ASend (S (count_updates ss)).
 
 Definition model_client (c : case) (q : cquery) : view :=
-  pipeline (c_cfg c) (c_streams c) q (canonical_sched (c_phase1 c)).
+  pipeline (c_cfg c) (c_streams c) q (canonical_sched (c_streams c) (c_phase1 c)).
 
 Definition model_seen (c : case) (name : string) : option sub_request :=
   match collector_start (c_cfg c) with
@@ -214,15 +231,6 @@ Definition model_cli (c : case) (a : cli_args) : option view :=
   end.
 
 (** ** the specification side (K_P) *)
-
-Definition upd_keys (it : item) : list path :=
-  match it with ISync => [] | IUpd n => map (fun u => tkey (n_prefix n) (fst u)) (n_updates n) end.
-
-Definition item_prefix_origin (it : item) : string :=
-  match it with
-  | IUpd n => match n_prefix n with Some g => g_origin g | None => "" end
-  | ISync => ""
-  end.
 
 Fixpoint ts_increasing (last : option Z) (s : list item) : bool :=
   match s with
@@ -261,8 +269,6 @@ Definition hyp_stream (s : list item) : bool :=
   ts_increasing None s && decodable s && prefix_free_from [] s
   && forallb (fun it => negb (String.eqb (item_prefix_origin it) meta_root)) s
   && forallb (fun it => forallb (fun k => forallb (fun e => negb (is_glob e)) k) (upd_keys it)) s.
-
-Definition glob_free (p : path) : bool := forallb (fun e => negb (is_glob e)) p.
 
 (** the subscription is for a subtree: its path is glob-free and does not run
     below a leaf *)
@@ -399,7 +405,8 @@ Fixpoint check_clients (i : nat) (c : case) (l : list (cquery * obs)) : list (na
   match l with
   | [] => []
   | (q, o) :: l' =>
-      (if view_agrees (model_client c q) o then [] else [(i, 1%N)])
+      (if view_agrees (negb (decodable (stream_of c (g_target (cq_prefix q))))) (model_client c q) o
+       then [] else [(i, 1%N)])
       ++ kp_client i c q o ++ check_clients (S i) c l'
   end.
 
